@@ -94,34 +94,4 @@ theorem nextBar_total (s : SlowStochastic F) (b : Bar F) (h : WF s) :
   cases hr
   exact ⟨_, nextBar_wiring s b fs' k e1, ⟨w1, w2⟩, p1, p2⟩
 
-/-- `reset` = FastStochastic reset, then EMA reset -/
-theorem reset_wiring (s : SlowStochastic F) (fs' : FastStochastic F)
-    (h : s.fast_stochastic.reset = some fs') :
-    s.reset = some { fast_stochastic := fs',
-                     ema := { s.ema with current := Scalar.lit 0 0, is_new := true } } := by
-  unfold reset
-  simp [h, ExponentialMovingAverage.reset_eq']
-
-/-- `reset` rebuilds exactly the state `new` builds -/
-theorem reset_eq (s : SlowStochastic F) (h : WF s) :
-    s.reset = some (fresh s.fast_stochastic.period s.ema.period) := by
-  unfold reset
-  simp [FastStochastic.reset_eq _ h.fast, ExponentialMovingAverage.reset_eq _ h.ema, fresh]
-
-theorem reset_wf (s : SlowStochastic F) (h : WF s) :
-    ∃ r, s.reset = some r ∧ WF r ∧
-      r.fast_stochastic.period = s.fast_stochastic.period ∧ r.ema.period = s.ema.period := by
-  have h8 : s.fast_stochastic.period * 8 ≤ isizeMax := h.fast.pmin ▸ h.fast.min.small
-  exact ⟨_, reset_eq s h, fresh_wf _ _ h.fast.pos h8 h.ema.pos, rfl, rfl⟩
-
-omit [Scalar F] in
-theorem display_eq (fmt : F → String) (s : SlowStochastic F) :
-    display fmt s =
-      "SLOW_STOCH(" ++ toString s.fast_stochastic.period ++ ", " ++ toString s.ema.period ++ ")" := rfl
-
-theorem default_eq : (default_ : Option (SlowStochastic F)) = some (fresh 14 3) := by
-  unfold default_
-  rw [new_eq]
-  simp [unwrap, isizeMax]
-
 end TaRs.Gen.SlowStochastic
